@@ -10,7 +10,7 @@ from __future__ import annotations
 
 import random
 
-from hv.scenarios.base import T, seed_all, stats_of, sub_seed
+from hv.scenarios.base import T, dur_ms, seed_all, size_over, stats_of, sub_seed
 
 NAME = "infrastructure"
 MODEL = None
@@ -21,52 +21,76 @@ COMPONENTS = ["CPUScheduler", "FairShare", "PriorityPreemptive", "DiskIO", "HDD"
 PARTS = ["cpu", "disk", "dns", "gc", "pcache", "tcp"]
 
 
+GC_STRATEGIES = ["stw", "concurrent", "generational", "default"]
+DISK_PROFILES = ["hdd", "ssd", "nvme", "nvme-shallow", "default", "hdd-x", "ssd-x", "nvme-x"]
+TCP_CC = ["aimd", "cubic", "bbr", "default", "aimd-x", "cubic-x", "bbr-x"]
+
+
+def _gc_cfg(rng):
+    """one collector: every constructor parameter of every strategy; the pause may be LONGER than the interval"""
+    return {
+        "strategy": rng.choice(GC_STRATEGIES),
+        "interval_ms": dur_ms(rng, 20, 1500),
+        # a few ms (the usual regime) or of the order of / above the interval (heavy heap pressure)
+        "pause_ms": dur_ms(rng, 1, 60) if rng.random() < 0.5 else dur_ms(rng, 60, 1800),
+        "minor_pct": rng.choice([1, 25, 100, 150]),       # minor pause as a percentage of the major pause
+        "pressure": rng.choice([None, 0.0, 0.2, 0.8, 0.95, 1.0]),
+        "multiplier": rng.choice([None, 0.0, 1.0, 3.0, 8.0]),
+        "major_thr": rng.choice([0.0, 0.5, 0.75, 1.0]),
+        "primed": rng.random() < 0.85,
+    }
+
+
 def gen_cfg(rng):
     k = rng.randint(2, len(PARTS))
     parts = sorted(rng.sample(PARTS, k))
+    gc0 = _gc_cfg(rng)
     return {
-        "end": rng.choice([2.0, 3.0, 4.0]),
+        "end": rng.choice([2.0, 3.0, 4.0, 4.0, 9.0] if rng.random() < 0.5 else [2.0, 3.0, 4.0]),
         "parts": parts,
         "poisson": rng.random() < 0.5,
         "cpu": {
-            "policy": rng.choice(["fair", "prio"]),
-            "quantum_ms": rng.choice([5, 10, 20]),
-            "cs_us": rng.choice([0, 5, 100, 1000]),
+            "policy": rng.choice(["fair", "prio", "default"]),
+            "quantum_ms": dur_ms(rng, 1, 40),
+            "cs_us": rng.choice([0, 5, 100, 1000, None]),
             "rate": rng.choice([5, 10, 20]),
-            "work_ms": [rng.randint(10, 100) for _ in range(4)],
+            "work_ms": [dur_ms(rng, 1, 100) for _ in range(4)],
             "n_prio": rng.randint(1, 4),
             "burst": rng.randint(1, 3),
         },
         "disk": {
-            "profile": rng.choice(["hdd", "ssd", "nvme", "nvme-shallow", "default"]),
+            "profile": rng.choice(DISK_PROFILES),
+            # the "-x" profiles set every constructor parameter
+            "seek_ms": dur_ms(rng, 1, 12), "rot_ms": dur_ms(rng, 1, 6), "mbps": rng.choice([20.0, 150.0, 550.0, 3500.0]),
+            "qd_penalty": rng.choice([0.0, 0.15, 0.3, 1.0]), "base_r_us": rng.choice([10, 25, 100, 1000]),
+            "base_w_us": rng.choice([20, 100, 2000]), "native_qd": rng.choice([1, 2, 32]),
+            "overflow": rng.choice([0.0, 0.05, 0.5]),
             "rate": rng.choice([20, 50, 100, 200]),
-            "sizes": [rng.choice([512, 4096, 65536, 1048576]) for _ in range(3)],
+            "sizes": [rng.choice([1, 512, 4096, 65536, 1048576]) for _ in range(3)],
             "write_pct": rng.choice([0, 30, 50, 100]),
             "burst": rng.randint(1, 4),
         },
         "dns": {
-            "cap": rng.randint(1, 4),
-            "n_hosts": rng.randint(2, 8),
-            "ttl_ms": [rng.choice([20, 50, 100, 300, 1000]) for _ in range(8)],
-            "root_ms": rng.randint(1, 20), "tld_ms": rng.randint(1, 15), "auth_ms": rng.randint(1, 10),
+            "cap": size_over(rng, [1, 2, 3, 4], 8),
+            "n_hosts": rng.randint(2, 12),
+            "ttl_ms": [dur_ms(rng, 10, 1500) for _ in range(12)],
+            "root_ms": dur_ms(rng, 1, 20), "tld_ms": dur_ms(rng, 1, 15), "auth_ms": dur_ms(rng, 1, 10),
             "rate": rng.choice([20, 50, 100]),
             "unknown_pct": rng.choice([0, 10, 30]),
-            "add_at_ms": rng.choice([None, 500, 1200]),
+            "add_at_ms": rng.choice([None, dur_ms(rng, 300, 1500), dur_ms(rng, 1001, 2500)]),
         },
-        "gc": {
-            "strategy": rng.choice(["stw", "concurrent", "generational", "default"]),
-            "interval_ms": rng.choice([50, 100, 250, 500]),
-            "pause_ms": rng.randint(2, 60),
-            "pressure": rng.choice([None, 0.2, 0.8]),
+        "gc": dict(gc0, **{
+            # further collectors running next to the first (one per strategy): all variants in one run
+            "bank": [_gc_cfg(rng) for _ in range(rng.choice([0, 0, 2, 3]))],
             "every_n": rng.randint(2, 20),
-            "svc_ms": rng.randint(1, 15),
+            "svc_ms": dur_ms(rng, 1, 15),
             "rate": rng.choice([20, 50, 100]),
-            "primed": rng.random() < 0.8,
-        },
+        }),
         "pcache": {
             "cap": rng.randint(1, 8),
-            "readahead": rng.choice([0, 0, 1, 3]),
-            "read_ms": rng.randint(1, 8), "write_ms": rng.randint(1, 12),
+            "page_bytes": rng.choice([None, 512, 4096, 65536]),
+            "readahead": rng.choice([0, 0, 1, 3, 9]),
+            "read_ms": dur_ms(rng, 1, 8), "write_ms": dur_ms(rng, 1, 12),
             "n_pages": rng.randint(4, 24),
             "write_pct": rng.choice([0, 30, 60, 100]),
             # "seq": one driver doing its operations (and the flush) one after another;
@@ -77,18 +101,38 @@ def gen_cfg(rng):
             "ops_per_req": rng.randint(1, 3),
         },
         "tcp": {
-            "cc": rng.choice(["aimd", "cubic", "bbr", "default"]),
-            "rtt_ms": rng.randint(2, 50),
-            "loss_pct": rng.choice([0, 1, 5, 20]),
-            "rto_ms": rng.choice([50, 100, 300]),
-            "cwnd": rng.choice([1, 2, 10]),
-            "ssthresh": rng.choice([4, 16, 64]),
-            "mss": rng.choice([536, 1460]),
-            "sizes": [rng.choice([100, 1460, 20000, 65536, 200000]) for _ in range(3)],
+            "cc": rng.choice(TCP_CC),
+            # the "-x" variants set every constructor parameter of the congestion control
+            "ai": rng.choice([0.5, 1.0, 4.0]), "md": rng.choice([0.1, 0.5, 0.9]),
+            "beta": rng.choice([0.2, 0.7, 0.95]), "c": rng.choice([0.1, 0.4, 2.0]),
+            "gain": rng.choice([0.5, 1.0, 2.885]), "drain": rng.choice([0.35, 0.75, 1.0]),
+            "rtt_ms": dur_ms(rng, 1, 60),
+            "loss_pct": rng.choice([0, 1, 5, 20, 50]),
+            "rto_ms": dur_ms(rng, 5, 400),
+            "cwnd": rng.choice([1, 2, 10, 64]),
+            "ssthresh": rng.choice([1, 4, 16, 64]),
+            "mss": rng.choice([1, 536, 1460, 9000]),
+            "sizes": [rng.choice([1, 100, 1460, 20000, 65536, 200000]) for _ in range(3)],
             "rate": rng.choice([5, 10, 20]),
             "senders": rng.randint(1, 3),
         },
     }
+
+
+def gen_cfg_wide(rng):
+    """maximum-coverage configuration: all parts, one collector per GC strategy (pauses around / above the interval)"""
+    cfg = gen_cfg(rng)
+    cfg["parts"] = list(PARTS)
+    bank = []
+    for strat in GC_STRATEGIES:
+        g = _gc_cfg(rng)
+        g["strategy"] = strat
+        g["primed"] = True
+        if rng.random() < 0.6:
+            g["pause_ms"] = dur_ms(rng, g["interval_ms"] * 0.5, g["interval_ms"] * 3 + 5)
+        bank.append(g)
+    cfg["gc"]["bank"] = bank
+    return cfg
 
 
 def build(cfg, seed):
@@ -125,8 +169,12 @@ def build(cfg, seed):
     if "cpu" in parts:
         c = cfg["cpu"]
         q = c["quantum_ms"] / 1000.0
-        policy = FairShare(quantum_s=q) if c["policy"] == "fair" else PriorityPreemptive(quantum_s=q)
-        cpu = CPUScheduler("cpu", policy=policy, context_switch_s=c["cs_us"] / 1e6)
+        policy = {"fair": lambda: FairShare(quantum_s=q), "prio": lambda: PriorityPreemptive(quantum_s=q),
+                  "default": lambda: None}[c["policy"]]()
+        if c["cs_us"] is None:
+            cpu = CPUScheduler("cpu", policy=policy)
+        else:
+            cpu = CPUScheduler("cpu", policy=policy, context_switch_s=c["cs_us"] / 1e6)
 
         class Submitter(Entity):
             def __init__(self):
@@ -162,6 +210,13 @@ def build(cfg, seed):
         d = cfg["disk"]
         profile = {"hdd": lambda: HDD(), "ssd": lambda: SSD(), "nvme": lambda: NVMe(),
                    "nvme-shallow": lambda: NVMe(native_queue_depth=2, overflow_penalty=0.5),
+                   "hdd-x": lambda: HDD(seek_time_s=d["seek_ms"] / 1000.0, rotational_latency_s=d["rot_ms"] / 1000.0,
+                                        transfer_rate_mbps=d["mbps"], queue_depth_penalty=d["qd_penalty"]),
+                   "ssd-x": lambda: SSD(base_read_latency_s=d["base_r_us"] / 1e6, base_write_latency_s=d["base_w_us"] / 1e6,
+                                        transfer_rate_mbps=d["mbps"], queue_depth_factor=d["qd_penalty"]),
+                   "nvme-x": lambda: NVMe(base_read_latency_s=d["base_r_us"] / 1e6,
+                                          base_write_latency_s=d["base_w_us"] / 1e6, transfer_rate_mbps=d["mbps"],
+                                          native_queue_depth=d["native_qd"], overflow_penalty=d["overflow"]),
                    "default": lambda: None}[d["profile"]]()
         disk = DiskIO("disk", profile=profile)
 
@@ -244,13 +299,22 @@ def build(cfg, seed):
     # ------------------------------------------------------------------ Garbage collector
     if "gc" in parts:
         g = cfg["gc"]
-        iv, ps = g["interval_ms"] / 1000.0, g["pause_ms"] / 1000.0
-        strategy = {"stw": lambda: StopTheWorld(base_pause_s=ps, interval_s=iv),
-                    "concurrent": lambda: ConcurrentGC(pause_s=ps, interval_s=iv),
-                    "generational": lambda: GenerationalGC(minor_pause_s=ps / 4, major_pause_s=ps,
-                                                           minor_interval_s=iv, major_threshold=0.5),
-                    "default": lambda: None}[g["strategy"]]()
-        gc = GarbageCollector("jvm-gc", strategy=strategy, heap_pressure=g["pressure"])
+
+        def mk_gc(name, gg):
+            iv, ps = gg["interval_ms"] / 1000.0, gg["pause_ms"] / 1000.0
+            minor = ps * gg.get("minor_pct", 25) / 100.0
+            mult = gg.get("multiplier")
+            strategy = {"stw": lambda: (StopTheWorld(base_pause_s=ps, interval_s=iv) if mult is None else
+                                        StopTheWorld(base_pause_s=ps, interval_s=iv, pressure_multiplier=mult)),
+                        "concurrent": lambda: ConcurrentGC(pause_s=ps, interval_s=iv),
+                        "generational": lambda: GenerationalGC(minor_pause_s=minor, major_pause_s=ps,
+                                                               minor_interval_s=iv,
+                                                               major_threshold=gg.get("major_thr", 0.5)),
+                        "default": lambda: None}[gg["strategy"]]()
+            return GarbageCollector(name, strategy=strategy, heap_pressure=gg["pressure"])
+
+        gc = mk_gc("jvm-gc", g)
+        bank = [mk_gc(f"gc-{i}-{gg['strategy']}", gg) for i, gg in enumerate(g.get("bank", []))]
 
         class GCServer(Entity):
             def __init__(self):
@@ -267,10 +331,14 @@ def build(cfg, seed):
                 return done(self, event, "Response")
 
         gsrv = GCServer()
-        entities += [gc, gsrv]
+        entities += [gc, gsrv, *bank]
         src(g["rate"], gsrv, "src-gc", typ="Request")
         if g["primed"]:
             pre.append(lambda sim: sim.schedule(gc.prime()))
+        for b, gg in zip(bank, g.get("bank", [])):
+            if gg["primed"]:
+                pre.append(lambda sim, b=b: sim.schedule(b.prime()))
+            obs[b.name] = stats_of(b)
         obs["gc"] = stats_of(gc)
         obs["gc.x"] = lambda: {"count": gc.collection_count, "avg": gc.stats.avg_pause_s, "n": gsrv.n,
                                "paused": gsrv.paused_s}
@@ -278,8 +346,9 @@ def build(cfg, seed):
     # ------------------------------------------------------------------ Page cache
     if "pcache" in parts:
         p = cfg["pcache"]
+        extra = {} if p.get("page_bytes") is None else {"page_size_bytes": p["page_bytes"]}
         cache = PageCache("os-cache", capacity_pages=p["cap"], readahead_pages=p["readahead"],
-                          disk_read_latency_s=p["read_ms"] / 1000.0, disk_write_latency_s=p["write_ms"] / 1000.0)
+                          disk_read_latency_s=p["read_ms"] / 1000.0, disk_write_latency_s=p["write_ms"] / 1000.0, **extra)
 
         class CacheDriver(Entity):
             def __init__(self):
@@ -339,6 +408,9 @@ def build(cfg, seed):
     if "tcp" in parts:
         t = cfg["tcp"]
         cc = {"aimd": lambda: AIMD(), "cubic": lambda: Cubic(), "bbr": lambda: BBR(),
+              "aimd-x": lambda: AIMD(additive_increase=t["ai"], multiplicative_decrease=t["md"]),
+              "cubic-x": lambda: Cubic(beta=t["beta"], c=t["c"]),
+              "bbr-x": lambda: BBR(gain=t["gain"], drain_gain=t["drain"]),
               "default": lambda: None}[t["cc"]]()
         tcp = TCPConnection("conn", congestion_control=cc, base_rtt_s=t["rtt_ms"] / 1000.0,
                             loss_rate=t["loss_pct"] / 100.0, mss_bytes=t["mss"], initial_cwnd=float(t["cwnd"]),
